@@ -260,6 +260,9 @@ func run(c *core.Ctx) error {
 
 	// ---- real compiler + VM: one batch per combination; a batch that is rejected / crashes is split
 	pool := c.NewPool(c.Workers)
+	if err := dispatchStage(c, pool); err != nil {
+		return err
+	}
 	res := map[int]*obs{}
 	runBatches := func(batches [][]*Case) [][]*Case {
 		var jobs []core.Job
